@@ -176,8 +176,14 @@ def r3(c):
     c.ob('handle-dropped', len(none) == 1 and leaves(none[0]), 'a dropped handle (None) leaves the loop: the task ends, dropping the tracker (all session senders) and the listener', '', cmd.loc())
     sd = [e for e, v, info in b.variant_edges(SC) if v == 'Shutdown' and q.sem(b, info['place']).kind == 'call' and q.sem(b, info['place']).cs is cmd]
     c.ob('shutdown-command', len(sd) == 1 and leaves(sd[0]), 'ServerCommand::Shutdown leaves the loop', str(sd), cmd.loc())
-    ae = q.outcomes(b, acc).get('Err', [])
-    c.ob('accept-error', len(ae) == 1 and leaves(ae[0]), 'an accept error leaves the loop', '', acc.loc())
+    oc_acc = q.outcomes(b, acc)
+    ae = oc_acc.get('Err', [])
+    # wherever the error is first noticed (a match arm, `inspect_err`, let-else): from there the loop is left
+    first = [e for e in ae if not any(o is not e and e in b.reach_set(o) for o in ae)]
+    def leaves_acc(e):
+        rs = q.reach_from_outcome(b, acc, e, oc_acc)
+        return not (rs & {cmd.node, acc.node}) and bool(rs & rets)
+    c.ob('accept-error', len(first) == 1 and leaves_acc(first[0]), 'an accept error leaves the loop', '%d Err edges' % len(ae), acc.loc())
     rm = one(b.calls(TR + '::remove'), 'tracker.remove')
     cl = b.op_closure(rm.args[1])
     rx = [cs for cs in b.calls('tokio::sync::mpsc::bounded::Receiver::recv') if cs is not cmd]
